@@ -5,6 +5,7 @@ source.py).  Concrete values are native Python objects, symbolic scalars are SV(
 symbolic conditions fork the exploration (decision-prefix replay, see ctx.py).
 """
 from __future__ import annotations
+import os
 import ast, builtins, inspect, types, enum, operator, re, fractions
 import z3
 from .values import *
@@ -178,6 +179,10 @@ class Interp:
             raise FailurePath(kind, msg, node)
         e = ExcVal(cls, (f"{msg} @ {self.loc(node)}",))
         e.implicit = True
+        if os.environ.get("PYVC_DEBUG_FAIL"):        # development aid: where in the analysed program the implicit exception arises
+            import traceback
+            print("IMPLICIT", kind, msg, "call stack:", [getattr(f, "name", "?") for f in getattr(self, "stack", [])][-8:])
+            traceback.print_stack(limit=14)
         raise PyRaise(e)
 
     def require(self, kind, cond, node=None):
@@ -517,6 +522,10 @@ class Interp:
 
     def obj_binop(self, sym, dunder, rdunder, a, b, node):
         NI = NotImplemented
+        if self.is_native_repo_instance(a):
+            a = self.lift_instance(a)          # native (concrete) repository object (op) interpreter object
+        if self.is_native_repo_instance(b):
+            b = self.lift_instance(b)
         if isinstance(a, Obj):
             m = self.lookup_class_attr(a.cls, dunder)
             if m is not _MISSING and m is not None and not isinstance(m, types.WrapperDescriptorType):
@@ -533,6 +542,8 @@ class Interp:
             return a is b
         if sym == "!=":
             return a is not b
+        if os.environ.get("PYVC_DEBUG_FAIL"):
+            print("obj_binop operands:", repr(a)[:300], "|", repr(b)[:300])
         self.fail("TypeError", f"unsupported operand {sym} for {self.tname(a)} and {self.tname(b)}", node)
 
     def tname(self, v):
